@@ -1,5 +1,11 @@
 import HeraProofs.Props.C09
+import HeraProofs.Props.C09b
 open Hera
 #print axioms table_P
 #print axioms checkArg_iff
 #print axioms C09_op_iff
+#print axioms C09_redeclaration_iff
+#print axioms tc_errors_grow
+#print axioms C09_redeclared_rejected
+#print axioms C09_data_after_code_rejected
+#print axioms C09_debug_ops_rejected
